@@ -334,7 +334,7 @@ pub fn fill_positions(w: &mut World, acct: &Pubkey, specs: &[BankSpec], rng: &mu
 pub fn gen(rng: &mut Rng, n: usize, out: &mut Vec<String>) {
     let mut produced = 0;
     while produced < n {
-        let (mut w, acct, specs, _) = build_world(rng);
+        let (mut w, acct, specs, group) = build_world(rng);
         for _ in 0..4 {
             // fresh positions on the same banks
             let mut a = w.marginfi_account(&acct);
@@ -347,6 +347,92 @@ pub fn gen(rng: &mut Rng, n: usize, out: &mut Vec<String>) {
             let o = pulse_line(&w, &acct, &specs);
             out.push(format!("risk.pulse {} => {}", line, o));
             produced += 1;
+            if o.starts_with("ok") && rng.chance(1, 2) {
+                if let Some(l) = end_line(&w, &acct, &specs, group, &line, &o, rng) {
+                    out.push(l);
+                    produced += 1;
+                }
+            }
         }
     }
+}
+
+
+/// `risk.endliq <pre maint assets> <pre maint liabs> <pre equity assets> <pre equity liabs> <fee-state max fee> <portfolio>` and
+/// `risk.enddelev <pre x4> <portfolio>`: the REAL end_liquidation / end_deleverage through real dispatch on an account that is
+/// put into receivership by state edit, with a start-of-bracket snapshot chosen AROUND the current valuation (health equal,
+/// one bit better / worse, premium around 1 + max(fee, 5 %), assets around five dollars). Output: the verdict.
+fn end_line(w0: &World, acct: &Pubkey, specs: &[BankSpec], group: Pubkey, portfolio: &str, pulse: &str, rng: &mut Rng) -> Option<String> {
+    use marginfi_type_crate::types::{ACCOUNT_IN_DELEVERAGE, ACCOUNT_IN_RECEIVERSHIP};
+    let cur: Vec<i128> = pulse.split_whitespace().skip(1).take(6).map(|x| x.parse().unwrap()).collect();
+    let (am, lm, ae, le) = (cur[2], cur[3], cur[4], cur[5]);
+    let mut w = w0.clone();
+    let delev = rng.chance(1, 4);
+    let receiver = w.add_wallet(1_000_000_000);
+    let rec_key = w.add_liquidation_record(*acct, receiver);
+    // fee state: maximum liquidator fee and flat fee
+    let fee_bits: i128 = *rng.pick(&[0i128, ONE / 100 * 3, ONE / 20, ONE / 20 + 1, ONE / 10, ONE / 5, ONE]);
+    let (fs_key, _) = crate::world::fixtures::fee_state_pda();
+    let mut fs = w.fee_state(&fs_key);
+    fs.liquidation_max_fee = I80F48::from_bits(fee_bits).into();
+    fs.liquidation_flat_sol_fee = *rng.pick(&[0u32, 0, 5000]);
+    let fee_wallet = fs.global_fee_wallet;
+    w.set_fee_state(&fs_key, &fs);
+    // the snapshot
+    let jitter = |rng: &mut Rng, v: i128| -> i128 {
+        match rng.below(6) {
+            0 => 0,
+            1 => 1,
+            2 => -1,
+            3 => (v / 10).max(1) * (rng.below(3) as i128 - 1),
+            4 => rng.below(ONE as u64) as i128,
+            _ => -(rng.below(ONE as u64) as i128),
+        }
+    };
+    let pre_am = am.saturating_add(jitter(rng, am)).max(0);
+    let pre_lm = lm.saturating_add(jitter(rng, lm)).max(0);
+    let prem = (ONE + fee_bits.max(ONE / 20)) as i128;
+    let repaid: i128 = match rng.below(5) { 0 => 0, 1 => rng.below(1000) as i128, 2 => (rng.below(1_000_000) as i128) * ONE / 1000, 3 => le / 2 + 1, _ => (1 + rng.below(100_000) as i128) * ONE };
+    let at_cap: i128 = ((num_bigint::BigInt::from(repaid) * num_bigint::BigInt::from(prem)) >> 48u32).try_into().unwrap_or(i128::MAX / 4);
+    let seized: i128 = match rng.below(8) { 0 => 0, 1 => at_cap, 2 => at_cap + 1, 3 => at_cap - 1, 4 => repaid, 5 => at_cap.saturating_mul(2), 6 => 5 * ONE - ae + (rng.below(3) as i128 - 1), _ => rng.below(1u64 << 60) as i128 };
+    let pre_ae = ae.saturating_add(seized).max(0);
+    let pre_le = le.saturating_add(repaid).max(0);
+    let mut rec = w.liquidation_record(&rec_key);
+    let risk_admin = w.add_wallet(1_000_000_000);
+    rec.liquidation_receiver = if delev { risk_admin } else { receiver };
+    rec.cache.asset_value_maint = I80F48::from_bits(pre_am).into();
+    rec.cache.liability_value_maint = I80F48::from_bits(pre_lm).into();
+    rec.cache.asset_value_equity = I80F48::from_bits(pre_ae).into();
+    rec.cache.liability_value_equity = I80F48::from_bits(pre_le).into();
+    w.set_liquidation_record(&rec_key, &rec);
+    let mut a = w.marginfi_account(acct);
+    a.liquidation_record = rec_key;
+    a.account_flags |= ACCOUNT_IN_RECEIVERSHIP | if delev { ACCOUNT_IN_DELEVERAGE } else { 0 };
+    w.set_marginfi_account(acct, &a);
+    let r = if delev {
+        let gr = w.group(&group);
+        w.set_group_admins(&group, gr.emode_admin, gr.delegate_curve_admin, gr.delegate_limit_admin, gr.delegate_emissions_admin, risk_admin, gr.metadata_admin);
+        w.exec(&ix::end_deleverage(group, *acct, risk_admin, risk_metas(&w, acct, specs)))
+    } else {
+        w.exec(&ix::end_liquidation(*acct, receiver, fee_wallet, risk_metas(&w, acct, specs)))
+    };
+    let verdict = match r {
+        Ok(()) => {
+            // the bracket is closed: flag cleared, receiver forgotten
+            let a1 = w.marginfi_account(acct);
+            if a1.account_flags & ACCOUNT_IN_RECEIVERSHIP != 0 || w.liquidation_record(&rec_key).liquidation_receiver != Pubkey::default() {
+                "ok-but-still-in-receivership".to_string()
+            } else {
+                "ok".to_string()
+            }
+        }
+        Err(crate::world::ExecErr::Custom(c)) => format!("err {}", c),
+        Err(crate::world::ExecErr::Panic) => "panic".to_string(),
+        Err(_) => return None,
+    };
+    Some(if delev {
+        format!("risk.enddelev {} {} {} {} {} => {}", pre_am, pre_lm, pre_ae, pre_le, portfolio, verdict)
+    } else {
+        format!("risk.endliq {} {} {} {} {} {} => {}", pre_am, pre_lm, pre_ae, pre_le, fee_bits, portfolio, verdict)
+    })
 }
